@@ -141,7 +141,7 @@ def check_score_kernel(db, ctx, path, e_out, e_tab, want_op):
                 ini = Lk.carried.get(l)
                 if isinstance(ini, Vec) and lane(ini, q2, 4) == ('phiw', Hj, l, q2, 4):
                     ss = K.select_sum_lookup(E, Hk, l, q2)
-                    if ss and ss['iter'][0] == 'range' and norm(ss['iter'][1]) == ('k', 0) and 'USIZE' in X.canon(ss['iter'][2]):
+                    if ss and ss['iter'][0] == 'range' and norm(ss['iter'][1]) == ('k', 0) and common.is_usize_const(ss['iter'][2]):
                         exp_key = (('phi', Hj, tabp), X.lin_str({X.canon(('elem', ss['iter'], Hk)): Fraction(4)}))
                         if ss['tabkey'] != exp_key:
                             probs.append(f'column {X.lin_str(col_store)}: table element read from {ss["tabkey"]}, expected pssmptr + 4*k')
@@ -181,7 +181,7 @@ def check_score_kernel(db, ctx, path, e_out, e_tab, want_op):
         okmap = False
         if itv[0] == 'iter' and isinstance(itv[1], tuple) and itv[1][0] == 'call' and itv[1][1].endswith('Iterator::map'):
             src, clo = itv[1][2]
-            if src[0] == 'agg' and norm(src[2][0]) == ('k', 0) and 'USIZE' in X.canon(src[2][1]) and clo[0] == 'agg' and clo[1][0] == 'closure':
+            if src[0] == 'agg' and norm(src[2][0]) == ('k', 0) and common.is_usize_const(src[2][1]) and clo[0] == 'agg' and clo[1][0] == 'closure':
                 cf = db.fns.get(clo[1][1])
                 ce = common.return_expr_single_path_allow(cf) if cf else None
                 if ce is not None:
@@ -258,7 +258,7 @@ def r12(db, ctx):
         c = f.callee_short(t) or ''
         if c.endswith('score_f32_rows_into_permute'):
             rels = G.relations(f, R, bi)
-            g = [r for r in rels if r[0] in ('le', 'lt') and 'USIZE' in X.canon(r[1]) and norm(r[2])[0] == 'k']
+            g = [r for r in rels if r[0] in ('le', 'lt') and common.is_usize_const(r[1]) and norm(r[2])[0] == 'k']
             okg = g and ((g[0][0] == 'le' and norm(g[0][2])[1] <= 8) or (g[0][0] == 'lt' and norm(g[0][2])[1] <= 9))
             n += 1
             if okg:
@@ -301,21 +301,41 @@ def r13(db, ctx):
             if not is_rows_len:
                 probs.append(f'row count is {X.show(a1, 60)}, expected rows.len()')
             # second: saturating_sub(len(seq)+1, rows(pssm))  or  len - M + 1
-            b = m(('call~', 'saturating_sub', ('$x', '$y')), a2)
-            if b is not None:
-                l = K.lin_add(X.lin(b['$x']), X.lin(b['$y']), 1, -1)
-            else:
-                l = X.lin(a2)
+            # saturating_sub(x, y) is x - y on this side of the guard (x >= y is implied by the guard checked below)
+            def unsat(e):
+                if not isinstance(e, tuple) or not e or not isinstance(e[0], str):
+                    return e
+                if e[0] == 'call' and e[1].endswith('saturating_sub') and len(e[2]) == 2:
+                    return ('bin', 'Sub', unsat(e[2][0]), unsat(e[2][1]))
+                return tuple(unsat(x) if isinstance(x, tuple) and x and isinstance(x[0], str) else (tuple(unsat(y) for y in x) if isinstance(x, tuple) else x) for x in e)
+            l = X.lin(unsat(a2))
             ks = {k: v for k, v in l.items() if k != ''}
             if not (l.get('', 0) == 1 and sorted(ks.values()) == [-1, 1] and any('StripedSequence::len' in k and v == 1 for k, v in ks.items())
                     and any('DenseMatrix::rows' in k and v == -1 for k, v in ks.items())):
                 probs.append(f'number of valid positions is {X.show(a2, 100)}, expected seq.len() + 1 - pssm.rows()')
             rels = G.relations(f, R, bi)
-            g1 = G.holds(rels, 'ge', lambda e: 'StripedSequence::len' in X.canon(e), lambda e: 'DenseMatrix::rows' in X.canon(e))
+            strength, gr = common.length_guard_strength(rels)
             g2 = any(r[0] == 'false' and 'is_empty' in X.canon(r[1]) for r in rels)
-            if not (g1 and g2):
+            if strength == 'stronger':
+                probs.append(f'the early exit also takes sequences with len(seq) == rows(pssm) (guard {gr[0]}({X.show(norm(gr[1]), 60)}, {X.show(norm(gr[2]), 40)}) is stronger than '
+                             'len >= rows): the single window of a sequence as long as the motif gets no score')
+            elif not (strength == 'exact' and g2):
                 probs.append('the full resize is not dominated by len(seq) >= rows(pssm) and !rows.is_empty()')
             # the (0,0) side returns without touching the kernel
+        # must-pass-through: no path from entry to a return avoids every resize of the output (a skipped resize leaves the
+        # previous call's scores and length in a reused buffer)
+        rblocks = {bi for bi, t in rs}
+        seen, st = set(), [0]
+        while st:
+            b_ = st.pop()
+            if b_ in seen or b_ in rblocks:
+                continue
+            seen.add(b_)
+            st.extend(f.succs(b_))
+        esc = [e for e in f.exits() if e in seen]
+        if esc:
+            probs.append('a path returns without resizing the output scores: a reused buffer keeps the rows and length of the previous call '
+                         '(the scanner then re-reads stale 8-bit scores for an empty trailing block)')
         if probs:
             ctx.fail('R1.3', f, 'result-length bookkeeping', '; '.join(probs))
         else:
@@ -381,7 +401,7 @@ def r14(db, ctx):
                     if d[0] == 'bin' and d[1] == 'Lt':
                         l = X.lin(d[2])
                         ks = list(l)
-                        if len(l) == 2 and all(v == 1 for v in l.values()) and any(k.startswith('(') and 'DenseMatrix::rows' in k and 'wrap' in k for k in ks) and 'len' in X.canon(d[3]):
+                        if len(l) == 2 and all(v == 1 for v in l.values()) and any(k.startswith('(') and 'DenseMatrix::rows' in k and 'wrap' in k for k in ks) and common.is_call_to(d[3], '::len'):
                             found = True
             if not found:
                 probs.append('no guard of the form j*(rows - wrap) + i < len')
